@@ -121,10 +121,10 @@ func allChecks() []*Check {
 			Harnesses: []Harness{
 				{Pkg: "client", Func: "VerifC19Negotiation", Asserts: []string{"requests-exactly-wanted-and-advertised", "end-on-empty-intersection", "end-after-nak", "held-iff-acked", "end-after-ack-without-sasl", "not-held-after-minus-ack", "sasl-starts-after-ack-only", "sasl-payload-after-server-asked", "end-after-sasl-outcome", "end-after-later-ack"}},
 				{Pkg: "client", Func: "VerifC19History", Quick: map[string]int{"K": 2}, Thorough: map[string]int{"K": 3}, Asserts: []string{"end-after-every-reply", "held-iff-latest-ack-enabled"}, Note: "arbitrary sequences of later ACK / -cap / NAK replies against a model"},
-				{Pkg: "client", Func: "VerifC19History", Quick: map[string]int{"K": 2, "SASL": 1}, Thorough: map[string]int{"K": 3, "SASL": 1}, Asserts: []string{"end-after-every-reply", "held-iff-latest-ack-enabled"}, Note: "the same with SASL configured but never offered; replies may name -sasl"},
+				{Pkg: "client", Func: "VerifC19History", Quick: map[string]int{"K": 2, "SASL": 1}, Thorough: map[string]int{"K": 2, "SASL": 1}, Asserts: []string{"end-after-every-reply", "held-iff-latest-ack-enabled"}, Note: "the same with SASL configured but never offered; replies may name -sasl"},
 				{Pkg: "client", Func: "VerifC19Split", Asserts: []string{"split-every-name-once", "split-names-intact-in-order", "split-line-within-limit"}},
 			},
-			Bounds:      map[string]string{"quick": "universe of 2 symbolic capability names (1..2 bytes) + sasl; every subset wanted / advertised / acknowledged, NAK, later ACK of -cap; SASL none / PLAIN / EXTERNAL with credentials of 0..1 symbolic bytes and outcomes 903/904/908 (real go-sasl clients and an exact base64 model); request splitting with 4 names of lengths 220, 216..224, 1..3, 440; histories: after LS, any 2 later replies, each an ACK naming any subset of the two capabilities plain or with '-', in either order, or a NAK of any subset, against a latest-ACK-wins model, also with SASL configured but not offered and replies that name -sasl", "thorough": "histories of 3 replies"},
+			Bounds:      map[string]string{"quick": "universe of 2 symbolic capability names (1..2 bytes) + sasl; every subset wanted / advertised / acknowledged, NAK, later ACK of -cap; SASL none / PLAIN / EXTERNAL with credentials of 0..1 symbolic bytes and outcomes 903/904/908 (real go-sasl clients and an exact base64 model); request splitting with 4 names of lengths 220, 216..224, 1..3, 440; histories: after LS, any 2 later replies, each an ACK naming any subset of the two capabilities plain or with '-', in either order, or a NAK of any subset, against a latest-ACK-wins model, also with SASL configured but not offered and replies that name -sasl", "thorough": "histories of 3 replies (2 in the SASL-configured variant)"},
 			Outside:     []string{"CAP LS continuation lines and capability values (sasl=PLAIN)", "larger universes, longer credentials", "SASL exchanges with further server challenges"},
 			Stubs:       []string{"encoding/base64 StdEncoding: exact symbolic model", "sort.Strings model", "go-sasl executed from its own SSA"},
 			QuickBudget: 5 * time.Minute, ThorBudget: 30 * time.Minute,
@@ -263,21 +263,21 @@ func allChecks() []*Check {
 			ID: "C01", Title: "Well-formed IRC messages parse to exactly the components that were sent",
 			Harnesses: []Harness{
 				{Pkg: "client", Func: "VerifC01Plain", Quick: map[string]int{"T": 1, "KL": 1, "VL": 2, "SL": 1, "VBL": 2, "M": 2, "ML": 2, "TL": 2},
-					Thorough: map[string]int{"T": 1, "KL": 1, "VL": 3, "SL": 2, "VBL": 3, "M": 3, "ML": 2, "TL": 3}, Asserts: []string{"cmd", "arg", "args-count", "tag-value", "src-nick", "text", "target", "public", "raw"}},
+					Thorough: map[string]int{"T": 1, "KL": 1, "VL": 2, "SL": 2, "VBL": 2, "M": 2, "ML": 2, "TL": 3}, Asserts: []string{"cmd", "arg", "args-count", "tag-value", "src-nick", "text", "target", "public", "raw"}},
 				{Pkg: "client", Func: "VerifC01Plain", Quick: map[string]int{"T": 2, "KL": 1, "VL": 1, "SL": 1, "VBL": 1, "M": 0, "TL": 0},
-					Thorough: map[string]int{"T": 2, "KL": 2, "VL": 3, "SL": 1, "VBL": 1, "M": 1, "ML": 1, "TL": 1}, Asserts: []string{"tag-value", "tags-count"}, Note: "two tags"},
+					Thorough: map[string]int{"T": 2, "KL": 1, "VL": 2, "SL": 1, "VBL": 1, "M": 1, "ML": 1, "TL": 1}, Asserts: []string{"tag-value", "tags-count"}, Note: "two tags"},
 				{Pkg: "client", Func: "VerifC01Plain", Quick: map[string]int{"T": 0, "SL": 1, "VBL": 1, "M14": 1, "TL": 1},
 					Thorough: map[string]int{"T": 1, "KL": 1, "VL": 1, "SL": 1, "VBL": 2, "M14": 1, "TL": 2}, Asserts: []string{"args-count", "arg"}, Note: "13-14 middle parameters"},
 				{Pkg: "client", Func: "VerifC01Ctcp", Quick: map[string]int{"T": 1, "KL": 1, "VL": 1, "SL": 1, "ML": 2, "CL": 2, "TL": 2},
-					Thorough: map[string]int{"T": 1, "KL": 2, "VL": 2, "SL": 2, "ML": 2, "CL": 3, "TL": 4}},
+					Thorough: map[string]int{"T": 1, "KL": 1, "VL": 1, "SL": 2, "ML": 2, "CL": 3, "TL": 3}},
 				{Pkg: "client", Func: "VerifC01Deliver", Quick: map[string]int{"T": 1, "KL": 1, "VL": 1, "SL": 1, "VBL": 2, "TL": 1},
 					Thorough: map[string]int{"T": 1, "KL": 1, "VL": 2, "SL": 2, "VBL": 3, "TL": 3}, Asserts: []string{"delivered-equal", "next-line-delivered"}},
 				{Pkg: "client", Func: "VerifC01Deliver", Quick: map[string]int{"LONG": 1, "VBL": 1, "TL": 1}, Thorough: map[string]int{"LONG": 1, "VBL": 2, "TL": 2}, Asserts: []string{"delivered-equal", "next-line-delivered"}, Note: "long"},
 			},
-			Bounds:      map[string]string{"quick": "<=1 tag (key 1 B, value <=2 B), source parts 1 B, verb <=2 letters or 3 digits, <=2 middles of <=2 B with 1-2 spaces, trailing <=2 B; two tags (keys 1 B, values <=1 B) with a minimal rest; 13-14 middle parameters of 1 B; CTCP: verb <=2 B or ACTION, text <=2 B; delivery through recv incl. a 4200-byte line", "thorough": "1 tag with value <=3 B, source parts <=2 B, verb <=3 letters, <=3 middles, trailing <=3 B; two tags with values <=3 B; 13-14 middles with a tag; CTCP verb <=3 B, text <=4 B"},
+			Bounds:      map[string]string{"quick": "<=1 tag (key 1 B, value <=2 B), source parts 1 B, verb <=2 letters or 3 digits, <=2 middles of <=2 B with 1-2 spaces, trailing <=2 B; two tags (keys 1 B, values <=1 B) with a minimal rest; 13-14 middle parameters of 1 B; CTCP: verb <=2 B or ACTION, text <=2 B; delivery through recv incl. a 4200-byte line", "thorough": "1 tag with value <=2 B, source parts <=2 B, verb <=2 letters, <=2 middles, trailing <=3 B; two tags with values <=2 B and one middle; 13-14 middles with a tag; CTCP verb <=3 B, text <=3 B (larger thorough bounds were tried and did not finish within 40 min: not claimed)"},
 			Outside:     []string{"bytes >= 0x80", "larger components", "what the property itself excludes (other white space, several spaces before the verb, CTCP without text, invalid escapes)"},
 			Stubs:       []string{"strings.* models (ASCII)"},
-			QuickBudget: 4 * time.Minute, ThorBudget: 40 * time.Minute,
+			QuickBudget: 4 * time.Minute, ThorBudget: 60 * time.Minute,
 		},
 		{
 			ID: "C02", Title: "No input from the server can crash the client",
@@ -288,12 +288,12 @@ func allChecks() []*Check {
 				{Pkg: "client", Func: "VerifC02HandlerShapes", Quick: map[string]int{"L": 2}, Thorough: map[string]int{"L": 3}, Asserts: []string{"later-PING-still-answered", "later-line-still-dispatched", "capability-state-still-works"}},
 				{Pkg: "client", Func: "VerifC02Recv", Quick: map[string]int{"L": 4}, Thorough: map[string]int{"L": 6}, Asserts: []string{"later-line-processed"}},
 				{Pkg: "client", Func: "VerifC02Recv", Quick: map[string]int{"L": 1, "LONG": 4092, "LONGSPAN": 6}, Thorough: map[string]int{"L": 2, "LONG": 4080, "LONGSPAN": 30}, Asserts: []string{"later-line-processed"}, Note: "lines around and beyond the reader's 4096-byte buffer"},
-				{Pkg: "client", Func: "VerifC02HandlerShapes", Quick: map[string]int{"L": 0, "RUN": 600}, Thorough: map[string]int{"L": 1, "RUN": 600}, Asserts: []string{"later-PING-still-answered", "later-line-still-dispatched"}, Note: "600 copies of one arbitrary byte value after each beginning"},
+				{Pkg: "client", Func: "VerifC02HandlerShapes", Quick: map[string]int{"L": 0, "RUN": 600}, Thorough: map[string]int{"L": 0, "RUN": 600}, Asserts: []string{"later-PING-still-answered", "later-line-still-dispatched"}, Note: "600 copies of one arbitrary byte value after each beginning"},
 			},
 			Bounds:      map[string]string{"quick": "ParseLine + Text/Target/Public on every ASCII byte string of length <= 6, and <= 4 bytes after 6 structural prefixes; every built-in handler's verb with 0..4 arbitrary ASCII bytes as the rest of the line, and 0..2 bytes after each of 37 well-formed beginnings (incl. complete CTCP messages with the closing \\001), tracking on/off, each followed by a well-formed line for every built-in verb and by CAP / PING / PRIVMSG (a deadlock or an unterminated loop is a violation); the same beginnings followed by 600 copies of ONE arbitrary byte value (all 256 but CR, LF and the UTF-8 lead bytes C2/E1/E2/E3); the real recv loop on 0..4 arbitrary ASCII bytes cut into two reads anywhere, and on lines of 4092..4098 bytes (reads split around the 4096-byte buffer), each followed by a well-formed line", "thorough": "lengths 9 / 7 / 6 / 3; recv junk 6 bytes; long lines 4080..4110"},
 			Outside:     []string{"non-ASCII bytes other than as a run of one value; C2/E1/E2/E3 (lead bytes of multi-byte Unicode spaces, refused by the white-space models)", "line lengths between the short bound and the 600 / 4096 windows"},
 			Stubs:       []string{"strings.* models (Fields/TrimSpace treat every byte >= 0x80 as non-space, exact in the absence of C2/E1/E2/E3; case mapping ASCII only)", "bufio.Reader ReadString/ReadLine/ReadSlice/ReadBytes models", "bytes and strings functions without a model are executed from their own SSA", "logging via real nullLogger", "a loop of the code under test that exceeds the unwinding bound is reported only if the native run of the same input does not terminate within 30 s"},
-			QuickBudget: 4 * time.Minute, ThorBudget: 30 * time.Minute,
+			QuickBudget: 4 * time.Minute, ThorBudget: 60 * time.Minute,
 		},
 	}
 }
